@@ -8,6 +8,7 @@ import (
 	"crypto/sha256"
 	"fmt"
 	"hash"
+	"strings"
 
 	"github.com/free5gc/ike/security"
 	"github.com/free5gc/ike/security/encr"
@@ -102,6 +103,11 @@ func implProbe(k *security.IKESAKey, probe []byte) string {
 	})
 }
 
+var (
+	heldSA                        *security.IKESAKey
+	heldKeys, heldCase, heldProbe string
+)
+
 func evalC07(c *Ctx, s suite, nonce, secret []byte, si, sr uint64) error {
 	r := c.R
 	cs := fmt.Sprintf("(gen_ikesa k %s %s %s %s %s)", s, hx(nonce), hx(secret), hx(be8(si)), hx(be8(sr)))
@@ -116,7 +122,9 @@ func evalC07(c *Ctx, s suite, nonce, secret []byte, si, sr uint64) error {
 	if impl != model {
 		r.Add(Finding{Kind: "correspondence", What: "GenerateKeyForIKESA keys differ from Impl.generate_key_for_ikesa", Case: cs, Expected: model, Observed: impl})
 	}
-	fail := func(what, exp, obs string) { r.Add(Finding{Kind: "instance", What: what, Case: cs, Expected: exp, Observed: obs}) }
+	fail := func(what, exp, obs string) {
+		r.Add(Finding{Kind: "instance", What: what, Case: cs, Expected: exp, Observed: obs})
+	}
 	if len(nonce) == 0 || len(secret) == 0 {
 		if impl != "err" {
 			fail("empty nonce or shared secret accepted", "err", impl)
@@ -126,6 +134,19 @@ func evalC07(c *Ctx, s suite, nonce, secret []byte, si, sr uint64) error {
 	if k == nil {
 		fail("key derivation failed", "(ok ...)", impl)
 		return nil
+	}
+	// several live SAs in one process: the keys (and keyed objects) of the SA derived BEFORE this one are still what they
+	// were when it was derived
+	if heldSA != nil && solo() {
+		if now := saKeysSX(heldSA); now != heldKeys {
+			r.Add(Finding{Kind: "instance", What: "the keys held by an earlier IKE SA object change when another IKE SA is derived", Case: heldCase + " then " + cs, Expected: heldKeys, Observed: now})
+		}
+		if now := implProbe(heldSA, []byte("held")); now != heldProbe {
+			r.Add(Finding{Kind: "instance", What: "the keyed objects of an earlier IKE SA change when another IKE SA is derived", Case: heldCase + " then " + cs, Expected: heldProbe, Observed: now})
+		}
+	}
+	if solo() && !strings.HasPrefix(impl, "(inputs-overwritten") {
+		heldSA, heldKeys, heldCase, heldProbe = k, impl, cs, implProbe(k, []byte("held"))
 	}
 	// RFC 7296 2.13/2.14 computed independently: SKEYSEED by Go's crypto/hmac, prf+ by the extracted Spec
 	skeyseed := stdHmac(s.p, nonce, secret)
